@@ -505,6 +505,17 @@ func runFraming(r *core.Run) {
 	if plan.failAt >= 0 && plan.failAt < limit {
 		limit = plan.failAt
 	}
+	// frames returned by the blocking extractor are the caller's: they are kept (not copied) and
+	// must still hold their octets after later calls
+	var kept [][]byte
+	defer func() {
+		for i, f := range kept {
+			if i < len(plan.frames) && !bytes.Equal(f, plan.frames[i]) {
+				r.Fail("C04", "frame-changed-later", site, "retained", "frame %d returned by DecodeBlocked changed after later calls (the extractor reuses its buffer)", i)
+				return
+			}
+		}
+	}()
 	for calls := 0; ; calls++ {
 		if calls > len(plan.frames)+2 {
 			r.Fail("C04", "no-progress", site, "spin", "DecodeBlocked kept returning after the stream ended")
@@ -533,6 +544,7 @@ func runFraming(r *core.Run) {
 			if !checkFrame(frame) {
 				return
 			}
+			kept = append(kept, frame)
 			consumed += len(plan.frames[next])
 			next++
 			if got := src.off - conn.Size(); got != consumed {
